@@ -333,12 +333,12 @@ holds at every step taken, like `ReachG` of C05).  Clauses that are REAL restric
 Clauses that are sanity conditions:
   (tickh), (done, first half) `_on_tick` / `_on_done` of a wait state run on a STARTED wait state: PROVED from the wait-protocol
          invariant of C06 for admissible sessions (`guard_core_suffices_partial`: `T46GuardCore` + `W6CInv` ⇒ `T46Guard`);
-  (done, second half) when `_on_done` finds the flag already set (a second `_done` event of the awaited event, possible for a
-         re-fired `Timer` event), the resumption task is still registered - i.e. `_on_done` does not run again after the
-         resumption (the code checks `timed_out` there, not `flag`; a stale run would re-register the consumed task, whose
-         later step raises KeyError in `removeHandler`).  Believed unreachable in guarded sessions (it needs a handler list
-         computed before the resumption, i.e. a `_dispatcher` suspended below the task loop, which (tick) excludes; or a stale
-         cache entry), NOT proved: it needs "handler lists held by frames / cache entries contain only installed handlers";
+  (done, second half) [REMOVED] it used to demand that, when `_on_done` finds the flag already set (a second `_done` event of
+         the awaited event - an event object fired twice, as `Timer` does - or a stale invocation after the resumption), the
+         resumption task is still registered.  It was a real restriction: such a run re-registered the consumed callEvent
+         generator, the caller was resumed again at an unrelated `yield` and its event ended with `waitingHandlers = -1`.
+         Since the fix "waitEvent's _on_done does nothing once the awaited event is known to be done" (`if state.flag or
+         state.timed_out: return`, mirrored in `St.onWaitDone`) the clause is not needed: `T46Guard.done` is its first half only;
   (gen)  the event whose handler returned a generator exists: PROVED for all sessions (`Reach`, no guard) from the range
          invariant `T46RQ` - ids in queues, in `Timer.event` and in the frames `.dispatcher/.hLoop/.hAfter/.hApply` are ids of
          existing events - under the Init hypothesis `T46InitQ` (the ids in the initial queues / timers exist, e.g. empty
@@ -365,7 +365,7 @@ example : T46Guard { st := {} } :=
 theorem guarded_sessions_are_sessions (s0 : St) (c : Cfg) (h : T46Reach s0 c) : Reach s0 c := h.reach
 
 /-- **the guard without the wait-closure clauses** (admissible sessions of C06).  `T46GuardCore` has the two real restrictions
-    (tick), (root), the two range clauses (gen), (own) and the second half of (done); that the closures `_on_done` / `_on_tick`
+    (tick), (root) and the two range clauses (gen), (own); that the closures `_on_done` / `_on_tick`
     run on started wait states follows from C06's `wait_inv`.  So every admissible session on which the core guard holds at
     every step is a guarded session, and all `_partial` theorems of this section apply to it. -/
 theorem guard_core_suffices_partial (s0 : St) (hi : W6InitWait s0) (c : Cfg) (h : T46ReachC s0 c) : T46Reach s0 c :=
@@ -377,7 +377,7 @@ theorem guard_of_core (n0 : Nat) (c : Cfg) (hc : T46GuardCore c) (hw : W6CInv n0
 example (s0 : St) : T46ReachC s0 (startOf (envChange s0 0 []) (.tick 0)) := T46ReachC.init 0 [] (.tick 0) trivial
 example : T46GuardCore { st := {} } :=
   ⟨fun _ _ h => (by cases h), fun _ _ h => (by cases h), fun _ _ _ _ _ _ h => (by cases h),
-   fun _ _ _ _ h => (by cases h), fun _ _ _ _ _ h => (by cases h)⟩
+   fun _ _ _ _ h => (by cases h)⟩
 
 /-- non-vacuity of `T46InitQ`: empty queues, timers that have not fired -/
 example : T46InitQ {} := T46InitQ.of_empty {} (fun x => by cases x <;> exact ⟨rfl, rfl⟩) (fun i tm h => by simp at h)
@@ -397,7 +397,7 @@ theorem event_ids_in_range (s0 : St) (h0 : T46InitQ s0) (c : Cfg) (hr : Reach s0
   ⟨(t46_reach_rq h0 c hr).ok.1, (t46_reach_rq h0 c hr).ok.2, (t46_reach_rq h0 c hr).fr,
    fun r e rest err v k hs => (t46_reach_rq h0 c hr).gen r e rest err v k hs⟩
 
-/-- **the minimal guard**: `T46GuardMin` = (tick), (root), (own) and the second half of (done).  An admissible session (C06) from
+/-- **the minimal guard**: `T46GuardMin` = (tick), (root), (own).  An admissible session (C06) from
     an initial state satisfying `W6InitWait` and `T46InitQ` on which it holds at every step is a guarded session: all
     `_partial` theorems of this section apply to it. -/
 theorem guard_min_suffices_partial (s0 : St) (hi : W6InitWait s0) (hq : T46InitQ s0) (c : Cfg) (h : T46ReachM s0 c) :
@@ -405,7 +405,7 @@ theorem guard_min_suffices_partial (s0 : St) (hi : W6InitWait s0) (hq : T46InitQ
 
 example (s0 : St) : T46ReachM s0 (startOf (envChange s0 0 []) (.tick 0)) := T46ReachM.init 0 [] (.tick 0) trivial
 example : T46GuardMin { st := {} } :=
-  ⟨fun _ _ h => (by cases h), fun _ _ h => (by cases h), fun _ _ _ _ h => (by cases h), fun _ _ _ _ _ h => (by cases h)⟩
+  ⟨fun _ _ h => (by cases h), fun _ _ h => (by cases h), fun _ _ _ _ h => (by cases h)⟩
 
 /-- **waiting_accounting** (PARTIAL: guarded sessions).  In every configuration, for every event:
     task weights + pending-wait weights + frame weights ≤ `waitingHandlers`; in particular the counter is never negative. -/
